@@ -9,6 +9,8 @@
   predicates that exclude exactly those regions.
 -/
 import TypedpyModel.Lemmas.SchemaAdmits
+import TypedpyModel.Lemmas.SchemaWf
+import TypedpyModel.Lemmas.SchemaExact
 namespace Typedpy.C08
 open Typedpy Typedpy.Sch
 
@@ -69,6 +71,35 @@ theorem wrapper_admits_partial (O : Oracles) (S : String → String → Bool)
     jsValidFuel n D S (classSchema true (.struct c [(name, f)] [])) j = true :=
   admits_wrapper O S hS D c name f v j n hcol hfrag hrefs hn hc hreg hser
 
+/-- **schema_wellformed (partial).**  For every class declaration in the well-formedness fragment
+    (unbounded nesting) whose class references are faithful, the emitted schema (with the two
+    draft-4 spellings) is a well-formed draft-4 schema: every keyword value has the type and range
+    the meta-schema demands and every `$ref` resolves in the returned definitions
+    (`refs_resolve` is the `$ref` clause of `wfDraft4`). -/
+theorem schema_wellformed_partial (cls : FieldDecl) (hfrag : inWfFragment cls = true)
+    (hrefs : ClassRefsFaithful (fixedPtrDefs cls) cls) :
+    wfDraft4 (fixedPtrDefs cls) (classSchema true cls) = true :=
+  wf_class (fixedPtrDefs cls) cls hfrag hrefs
+
+/-- field level, any nesting depth (this is also what makes every definition well-formed: the
+    definition of a referenced class is the `classSchema` of that class) -/
+theorem field_wellformed_partial (D : Defs) (f : FieldDecl) (hfrag : wfFragF f = true)
+    (hrefs : RefsFaithful D f) : wfDraft4 D (emit true f) = true :=
+  wf_field D f hfrag hrefs
+
+/-- **schema_exact (partial, field level).**  On the exact scalar sub-fragment (Integer with
+    bounds / multiplesOf / a sign class without an explicit bound on the same side; Number and Float
+    with bounds; String with lengths and a start-anchored pattern; Boolean; Enum of literals or of
+    an enum class), with the regular-expression hypothesis `search ⇒ match` for start-anchored
+    patterns made explicit: every document value the field's schema admits is accepted by
+    `deserialize_single_field` and by the validation the constructor then runs. -/
+theorem field_exact_partial (O : Oracles) (R : String → PyVal → Bool) (S : String → String → Bool)
+    (hS : ∀ p s, startAnchored p = true → S p s = true → O.reMatch p s = true)
+    (opts : DeserOpts) (ign : Bool) (f : FieldDecl) (v : PyVal)
+    (hfrag : exactScalar f = true) (h : jsV R S (emit true f) v = true) :
+    ∃ y y', deser O opts ign f v = .ok y ∧ validate O f y = .ok y' :=
+  exact_scalar O R S hS opts ign f v hfrag h
+
 /-! ### a concrete non-trivial input meets the hypotheses -/
 
 def exO : Oracles := ⟨fun p s => p == "^x" && s == "xy"⟩
@@ -103,6 +134,20 @@ theorem schema_admits_example :
     ∧ (match serialize exO exCls exVal with
        | .ok j => schemaAccepts exS exCls 2 j
        | .error _ => false) = true := by decide
+
+theorem schema_wellformed_example :
+    inWfFragment exCls = true ∧ classRefsFaithfulB (fixedPtrDefs exCls) exCls = true
+    ∧ wfDocument (dialectFix (toSchema exCls).1) (fixDefs (toSchema exCls).2) = true
+    ∧ structEq (dialectFix (toSchema exCls).1) (classSchema true exCls) = true := by decide
+
+theorem field_exact_example :
+    exactScalar (.integer { min := some ⟨0, 1⟩, max := some ⟨10, 1⟩, exclMax := true, mult := some 5 }) = true
+    ∧ jsV (fun _ _ => false) exS
+        (emit true (.integer { min := some ⟨0, 1⟩, max := some ⟨10, 1⟩, exclMax := true, mult := some 5 }))
+        (.int 5) = true
+    ∧ jsV (fun _ _ => false) exS
+        (emit true (.integer { min := some ⟨0, 1⟩, max := some ⟨10, 1⟩, exclMax := true, mult := some 5 }))
+        (.int 10) = false := by decide
 
 /-! ### the code violates the full statement: kernel-checked counterexamples (known findings) -/
 
